@@ -187,6 +187,15 @@ def r3_normal_form(ctx: Ctx) -> None:
                       f'a tags: item passes through {folds} when the file is loaded: the source of a {{expression}} tag is rewritten (e.g. the regex class \\S becomes \\s), '
                       f'so the expression no longer yields its value and the tag is silently missing', n)
     ctx.need(n_items >= 1, 'C02.R3: no tags: item store found in MerchantEngine.parse')
+    # … and the list itself is the text after `tags:`: nothing is cut out of it before it is split into items (a `#` or a quote may well belong to a
+    # {expression} tag or to a plain tag such as `Project #7`)
+    rew = [s_ for s_ in pfl.cfg.stmts() if isinstance(s_, ast.Assign) and any(isinstance(t_, ast.Name) and t_.id == 'value' for t_ in s_.targets)
+           and any(t == "key == 'tags'" and tr for t, tr in pfl.cfg.guard_literals(s_))]
+    for s_ in rew:
+        ctx.fail('C02.R3', pf, 'tags-list-as-written', f'{src(s_)[:70]!r}: the text of the tags: line is rewritten before it is split into items: an item that contains what is cut '
+                 f'(`{{extract(description, "ORDER #(\\d+)")}}`, `Project #7`) is truncated and the items after it are lost', s_)
+    if not rew:
+        ctx.ok('C02.R3', pf, 'the tags: value is split into items as written', construct='tags-list-as-written')
     for qn in ('merchant_engine.MerchantEngine._resolve_tags', 'merchant_utils._resolve_dynamic_tags'):
         f = proj.func(qn)
         fl = get_flow(proj, f)
